@@ -93,7 +93,7 @@ Qed.
 Ltac norm_setc :=
   unfold setc in *;
   repeat match goal with
-         | H : getc ?s ?k = Some _ |- context [getc ?s ?k] => rewrite H
+         | H : getc ?s ?k = Some _ |- _ => progress (rewrite H in * )
          end.
 
 Ltac tc_side Htc :=
@@ -101,14 +101,23 @@ Ltac tc_side Htc :=
   first [ reflexivity | match goal with H : bpc_ _ = _ |- _ => rewrite H; reflexivity end ].
 
 Ltac nf_timers Htc :=
-  try (rewrite after_full_nf by tc_side Htc);
-  try (rewrite start_timer_nf by tc_side Htc);
-  unfold stopped.
+  try (rewrite after_full_nf in * by tc_side Htc);
+  try (rewrite start_timer_nf in * by tc_side Htc);
+  unfold stopped in *.
 
 (* case analysis of one transition: afterwards s' is an explicit stack of setters on s *)
 Ltac step_cases H Htc :=
   match type of H with step _ ?l = Some _ => destruct l end;
-  simpl in H; brk H; norm_setc; nf_timers Htc; simpl; goal_cases.
+  simpl in H; brk H; norm_setc; nf_timers Htc; simpl in *; goal_cases.
+
+Ltac zb :=
+  repeat match goal with
+         | Hx : (_ <=? _) = true |- _ => apply Z.leb_le in Hx
+         | Hx : (_ <=? _) = false |- _ => apply Z.leb_gt in Hx
+         | Hx : (_ <? _) = true |- _ => apply Z.ltb_lt in Hx
+         | Hx : (_ <? _) = false |- _ => apply Z.ltb_ge in Hx
+         | Hx : (_ =? _) = true |- _ => apply Z.eqb_eq in Hx
+         end.
 
 Ltac spec_hyps :=
   repeat match goal with
@@ -333,3 +342,453 @@ Proof.
   - intros d [].
   - constructor.
 Qed.
+
+Lemma G3_step s l s' : G1 s -> G3 s -> step s l = Some s' -> G3 s'.
+Proof.
+  intros HG1 HG3 H.
+  pose proof (step_mono _ _ _ HG1 H) as Hm.
+  pose proof (g_tc _ HG1) as Htc.
+  pose proof (g_bc _ HG1) as Hbc.
+  step_cases H Htc.
+  all: try (eapply G3_frame; [eassumption | eassumption | reflexivity | reflexivity]; fail).
+  all: repeat match goal with
+              | Hx : (_ && _)%bool = true |- _ => apply andb_prop in Hx; destruct Hx
+              end.
+  all: match goal with
+       | Hg : getc ?s0 ?k0 = Some ?c0 |- G3 ?s1 =>
+           eapply (G3_upd s0 s1 k0 c0); [eassumption | eassumption | exact Hg | reflexivity | | | ]
+       end.
+  all: try match goal with
+           | Hp : in_select (c_pc ?c0) = true |- _ =>
+               assert (Hnone : pc_res (c_pc c0) = None)
+                 by (destruct (c_pc c0); simpl in *; try discriminate; reflexivity)
+           | Hp : c_pc ?c0 = _ |- _ => rewrite Hp in *; simpl
+           end.
+  all: try (left; reflexivity); auto.
+  all: try (right; split; [assumption|]; eexists; split; [reflexivity | split; reflexivity]).
+  all: try (intros r1 Hr1 Hn1;
+            try (match goal with Hp : c_pc _ = _ |- _ => rewrite Hp in Hn1; discriminate Hn1 end);
+            simpl in Hr1; inversion Hr1; subst r1; simpl; auto).
+  all: try (eexists; split; [apply in_or_app; right; left; reflexivity | split; reflexivity]).
+  discriminate Hn1.
+Qed.
+
+Lemma G3_reach mw m calls nctx s : Reach mw m calls nctx s -> G3 s.
+Proof.
+  apply reach_inv; [apply G3_init|].
+  intros s0 l s' Hr HG H. eapply G3_step; eauto. eapply G1_reach; eauto.
+Qed.
+
+Lemma G2_reach mw m calls nctx s : Reach mw m calls nctx s -> G2 s.
+Proof.
+  apply reach_inv; [apply G2_init|].
+  intros s0 l s' Hr HG H. eapply G2_step; eauto. eapply G1_reach; eauto.
+Qed.
+
+(* ------------------------------------------------------------------ *)
+(* G4: sizes (Batch with batchSize >= 1)                               *)
+(* ------------------------------------------------------------------ *)
+Record G4 (s : st) : Prop := mkG4 {
+  g4_batch : forall size, mode s = FBatch size -> 1 <= size ->
+                          zlen (batch s) <= size /\ (bpc_ s = BLoop -> zlen (batch s) < size);
+  g4_del : forall size d, mode s = FBatch size -> 1 <= size -> In d (delivered s) ->
+                          zlen (d_batch d) <= size
+}.
+
+Lemma G4_init mw m calls nctx : G4 (init mw m calls nctx).
+Proof.
+  constructor; simpl.
+  - intros size _ H1. unfold zlen; simpl. lia.
+  - intros size d _ _ [].
+Qed.
+
+Lemma G4_step s l s' : G1 s -> G4 s -> step s l = Some s' -> G4 s'.
+Proof.
+  intros HG1 [Hb Hd] H.
+  pose proof (g_tc _ HG1) as Htc.
+  step_cases H Htc.
+  all: constructor; simpl; rw_goal; simpl; intros size0; intros;
+       repeat match goal with
+              | Hx : In _ (_ ++ [_]) |- _ => apply in_app_or in Hx; destruct Hx as [Hx|[Hx|[]]]; [|subst; simpl]
+              | Hm : mode ?s0 = FBatch _, Hx : FBatch _ = FBatch _ |- _ => inversion Hx; subst; clear Hx
+              end;
+       try (eapply Hd; eauto; fail);
+       try match goal with
+           | Hm : mode ?s0 = FBatch ?sz |- _ =>
+               let Hb1 := fresh "Hb1" in let Hb2 := fresh "Hb2" in
+               destruct (Hb sz ltac:(first [assumption|reflexivity]) ltac:(assumption)) as [Hb1 Hb2]
+           end.
+  all: zb; rewrite ?zlen_app in *; unfold zlen in *; simpl in *; intuition (try congruence; try lia).
+Qed.
+
+Lemma G4_reach mw m calls nctx s : Reach mw m calls nctx s -> G4 s.
+Proof.
+  apply reach_inv; [apply G4_init|].
+  intros s0 l s' Hr HG H. eapply G4_step; eauto. eapply G1_reach; eauto.
+Qed.
+
+(* ------------------------------------------------------------------ *)
+(* G5: non-empty batches and the maxWait discipline, on runs that have *)
+(* not taken the stale-timer step (ghost [stale] still false)          *)
+(* ------------------------------------------------------------------ *)
+Definition tmr_ok (s : st) : Prop :=
+  match tmr s with
+  | TmArmed d => d = bstart s + maxw s
+  | TmFired => bstart s + maxw s <= clock s
+  | _ => True
+  end.
+Definition timed (r : freason) : bool := match r with FCTimer | FCWait => true | _ => false end.
+Definition in_body (p : bpc) : bool := match p with BLoop | BFull | BInFull => true | _ => false end.
+
+Record G5 (s : st) : Prop := mkG5 {
+  g5_del : forall d, In d (delivered s) ->
+                     d_batch d <> [] /\
+                     (timed (d_reason d) = true -> d_ann d = true /\ d_start d + maxw s <= d_clock d);
+  g5_flush : forall r, bpc_ s = BFlush r ->
+                       batch s <> [] /\ (r <> FCEnd -> tc s = false) /\
+                       (timed r = true -> ann s = true /\ bstart s + maxw s <= clock s);
+  g5_full : bpc_ s = BFull \/ bpc_ s = BInFull ->
+            batch s <> [] /\ (tc s = true -> (2 <= length (batch s))%nat);
+  g5_loop : in_body (bpc_ s) = true -> tc s = true -> ann s = true /\ tmr_ok s /\ batch s <> [];
+  g5_wae : wae s = true -> ann s = true
+}.
+
+Lemma G5_init mw m calls nctx : G5 (init mw m calls nctx).
+Proof.
+  constructor; simpl; try discriminate; intros.
+  - contradiction.
+  - destruct H; discriminate.
+Qed.
+
+Ltac g5_spec :=
+  repeat match goal with
+         | H : forall r, BFlush ?r0 = BFlush r -> _ |- _ => specialize (H r0 eq_refl)
+         | H : ?a = ?a \/ _ -> _ |- _ => specialize (H (or_introl eq_refl))
+         | H : _ \/ ?a = ?a -> _ |- _ => specialize (H (or_intror eq_refl))
+         | H : (_ || _)%bool = false |- _ => apply orb_false_iff in H; destruct H
+         end.
+
+Ltac fwd :=
+  repeat match goal with
+         | Hf : forall r, bpc_ ?s = BFlush r -> _, Hr : bpc_ ?s = BFlush ?r0 |- _ => specialize (Hf r0 Hr)
+         | Hf : ?P -> _, Hp : ?P |- _ => specialize (Hf Hp)
+         end.
+
+Ltac g5_fin :=
+  repeat match goal with Hx : BFlush _ = BFlush _ |- _ => inversion Hx; subst; clear Hx end;
+  zb; simpl in *; fwd; spec_hyps;
+  try match goal with
+      | |- context [tmr ?s0] => destruct (tmr s0) eqn:?; simpl in *
+      | Hx : context [tmr ?s0] |- _ => destruct (tmr s0) eqn:?; simpl in *
+      end;
+  try match goal with
+      | |- context [batch ?s0 ++ _] => destruct (batch s0) eqn:?; simpl in *
+      end;
+  fwd; spec_hyps;
+  intuition (try congruence; try lia; try discriminate).
+
+Lemma G5_step s l s' : G1 s -> stale s' = false -> G5 s -> step s l = Some s' -> G5 s'.
+Proof.
+  intros HG1 Hns [Hd Hfl Hfu Hlo Hwa] H.
+  pose proof (g_tc _ HG1) as Htc.
+  step_cases H Htc.
+  all: simpl in *; g5_spec; spec_hyps.
+  all: constructor; unfold tmr_ok in *; simpl; rw_goal; simpl; intros;
+       repeat match goal with
+              | Hx : In _ (_ ++ [_]) |- _ => apply in_app_or in Hx; destruct Hx as [Hx|[Hx|[]]]; [|subst; simpl]
+              end;
+       try (apply Hd; assumption).
+  all: try (g5_fin; fail).
+  all: g5_fin; rewrite app_length; simpl; lia.
+Qed.
+
+Lemma G5_reach mw m calls nctx s : Reach mw m calls nctx s -> stale s = false -> G5 s.
+Proof.
+  revert s. apply (reach_inv (fun s => stale s = false -> G5 s)).
+  - intros _. apply G5_init.
+  - intros s0 l s' Hr HG H Hns.
+    pose proof (G1_reach _ _ _ _ _ Hr) as HG1.
+    eapply G5_step; eauto. apply HG. exact (m_stale _ _ (step_mono _ _ _ HG1 H) Hns).
+Qed.
+
+(* ------------------------------------------------------------------ *)
+(* G6: why a batch was flushed                                         *)
+(* ------------------------------------------------------------------ *)
+Record G6 (s : st) : Prop := mkG6 {
+  g6_full : forall size, mode s = FBatch size -> bpc_ s = BFlush FCFull -> size <= zlen (batch s);
+  g6_end : bpc_ s = BFlush FCEnd -> cclosed s = true;
+  g6_del : forall d, In d (delivered s) ->
+                     (d_reason d = FCEnd -> cclosed s = true) /\
+                     (forall size, mode s = FBatch size -> d_reason d = FCFull -> size <= zlen (d_batch d))
+}.
+
+Lemma G6_init mw m calls nctx : G6 (init mw m calls nctx).
+Proof. constructor; simpl; try discriminate; intros; try discriminate; contradiction. Qed.
+
+Lemma G6_step s l s' : G1 s -> G6 s -> step s l = Some s' -> G6 s'.
+Proof.
+  intros HG1 [Hf He Hd] H.
+  pose proof (g_tc _ HG1) as Htc.
+  step_cases H Htc.
+  all: simpl in *; spec_hyps.
+  all: constructor; simpl; rw_goal; simpl; intros;
+       repeat match goal with
+              | Hx : In _ (_ ++ [_]) |- _ => apply in_app_or in Hx; destruct Hx as [Hx|[Hx|[]]]; [|subst; simpl]
+              | Hm : mode ?s0 = FBatch _, Hx : FBatch _ = FBatch _ |- _ => inversion Hx; subst; clear Hx
+              end.
+  all: try (zb; fwd; spec_hyps; intuition (try congruence; try lia; try discriminate); fail).
+  split; [discriminate | intros; apply Hf; auto].
+Qed.
+
+Lemma G6_reach mw m calls nctx s : Reach mw m calls nctx s -> G6 s.
+Proof.
+  apply reach_inv; [apply G6_init|].
+  intros s0 l s' Hr HG H. eapply G6_step; eauto. eapply G1_reach; eauto.
+Qed.
+
+(* ================================================================== *)
+(* The clauses of C11                                                  *)
+(* ================================================================== *)
+Section Clauses.
+  Variables (mw : Z) (m : fmode) (calls : list nat) (nctx : nat).
+  Notation R := (Reach mw m calls nctx).
+
+  (* the result a consumer call holds / has returned *)
+  Definition result_of (s : st) (k : nat) : option cres :=
+    match nth_error (cons s) k with Some x => pc_res (c_pc x) | None => None end.
+
+  (* ---- partition ---- *)
+  Lemma partition_eq s : R s ->
+    src s = dconcat s ++ batch s ++ lostb s ++ held (ppc_ s) ++ lostp s.
+  Proof. intros Hr. exact (G2_reach _ _ _ _ _ Hr). Qed.
+
+  Lemma nothing_lost_before_close s : R s -> bgdone s = false -> lostb s = [] /\ lostp s = [].
+  Proof. intros Hr. exact (g_live _ (G1_reach _ _ _ _ _ Hr)). Qed.
+
+  Lemma bclosed_all_delivered s :
+    R s -> bclosed s = true -> bgdone s = false ->
+    src s = dconcat s /\
+    ((srcres s = Some REnd /\ perr s = None) \/ (exists e, srcres s = Some (RErr e) /\ perr s = Some e)).
+  Proof.
+    intros Hr Hbc Hbg.
+    pose proof (G1_reach _ _ _ _ _ Hr) as G. pose proof (partition_eq _ Hr) as HP.
+    assert (Hbx : b_exit (bpc_ s) = true).
+    { rewrite (g_bc _ G) in Hbc. destruct (bpc_ s); simpl in *; congruence. }
+    pose proof (g_bexit _ G Hbx) as Hb.
+    destruct (g_live _ G Hbg) as [Hlb Hlp].
+    pose proof (g_bx_cc _ G Hbg (or_introl Hbx)) as Hcc.
+    rewrite (g_cc _ G) in Hcc.
+    assert (Hpx : p_exit (ppc_ s) = true) by (destruct (ppc_ s); simpl in *; congruence).
+    assert (Hh : held (ppc_ s) = []) by (destruct (ppc_ s); simpl in *; congruence).
+    split; [|exact (g_res _ G Hbg Hpx)].
+    rewrite HP, Hb, Hlb, Hlp, Hh. rewrite !app_nil_r. reflexivity.
+  Qed.
+
+  (* at End everything was delivered *)
+  Lemma end_means_all_delivered s k :
+    R s -> result_of s k = Some CEnd -> bgdone s = false ->
+    srcres s = Some REnd /\ src s = dconcat s.
+  Proof.
+    intros Hr Hk Hbg. unfold result_of in Hk.
+    destruct (nth_error (cons s) k) as [x|] eqn:Hx; [|discriminate].
+    destruct (g3_res _ (G3_reach _ _ _ _ _ Hr) k x CEnd Hx Hk) as [Hbc Hpe].
+    destruct (bclosed_all_delivered s Hr Hbc Hbg) as [Hs [[Hr1 _]|(e & _ & He)]].
+    - auto.
+    - rewrite (Hpe Hbg) in He. discriminate.
+  Qed.
+
+  (* ---- a source error is reported after the items that preceded it ---- *)
+  Lemma error_after_items s k e :
+    R s -> result_of s k = Some (CErr e) ->
+    srcres s = Some (RErr e) /\ (bgdone s = false -> src s = dconcat s).
+  Proof.
+    intros Hr Hk. unfold result_of in Hk.
+    destruct (nth_error (cons s) k) as [x|] eqn:Hx; [|discriminate].
+    destruct (g3_res _ (G3_reach _ _ _ _ _ Hr) k x (CErr e) Hx Hk) as [Hbc Hpe].
+    split; [exact (g_perr _ (G1_reach _ _ _ _ _ Hr) e Hpe)|].
+    intros Hbg. exact (proj1 (bclosed_all_delivered s Hr Hbc Hbg)).
+  Qed.
+
+  (* every delivered batch is held by exactly one consumer call, which returns exactly it *)
+  Lemma delivered_owned s d :
+    R s -> In d (delivered s) -> result_of s (d_who d) = Some (CBatch (d_batch d)).
+  Proof.
+    intros Hr Hin. destruct (g3_del _ (G3_reach _ _ _ _ _ Hr) d Hin) as (x & Hx & Hp).
+    unfold result_of. rewrite Hx. exact Hp.
+  Qed.
+
+  Lemma delivered_distinct_calls s : R s -> NoDup (map d_who (delivered s)).
+  Proof. intros Hr. exact (g3_nodup _ (G3_reach _ _ _ _ _ Hr)). Qed.
+
+  Lemma batch_result_was_delivered s k b :
+    R s -> result_of s k = Some (CBatch b) -> exists d, In d (delivered s) /\ d_who d = k /\ d_batch d = b.
+  Proof.
+    intros Hr Hk. unfold result_of in Hk.
+    destruct (nth_error (cons s) k) as [x|] eqn:Hx; [|discriminate].
+    exact (g3_res _ (G3_reach _ _ _ _ _ Hr) k x (CBatch b) Hx Hk).
+  Qed.
+
+  (* ---- sizes ---- *)
+  Lemma bounded s size d :
+    R s -> mode s = FBatch size -> 1 <= size -> In d (delivered s) -> zlen (d_batch d) <= size.
+  Proof. intros Hr. exact (g4_del _ (G4_reach _ _ _ _ _ Hr) size d). Qed.
+
+  Lemma nonempty_partial s d :
+    R s -> stale s = false -> In d (delivered s) -> d_batch d <> [].
+  Proof. intros Hr Hns Hin. exact (proj1 (g5_del _ (G5_reach _ _ _ _ _ Hr Hns) d Hin)). Qed.
+
+  (* ---- maxWait ---- *)
+  Lemma maxwait_partial s d :
+    R s -> stale s = false -> In d (delivered s) -> timed (d_reason d) = true ->
+    d_ann d = true /\ d_start d + maxw s <= d_clock d.
+  Proof. intros Hr Hns Hin. exact (proj2 (g5_del _ (G5_reach _ _ _ _ _ Hr Hns) d Hin)). Qed.
+
+  (* for Batch: "not full, and handed out while c is still open (the source has not ended and Close
+     has not made the producer leave)" implies the flush was a timed one *)
+  Lemma underfilled_is_timed s size d :
+    R s -> mode s = FBatch size -> In d (delivered s) -> zlen (d_batch d) < size -> cclosed s = false ->
+    timed (d_reason d) = true.
+  Proof.
+    intros Hr Hm Hin Hlt Hcc.
+    destruct (g6_del _ (G6_reach _ _ _ _ _ Hr) d Hin) as [He Hf].
+    destruct (d_reason d) eqn:E; simpl; auto.
+    - specialize (Hf size Hm eq_refl). lia.
+    - specialize (He eq_refl). congruence.
+  Qed.
+
+  Lemma init_cfg s : R s -> maxw s = mw /\ mode s = m.
+  Proof.
+    revert s. apply reach_inv; [simpl; auto|].
+    intros s l s' Hr [H1 H2] H.
+    destruct (m_cfg _ _ (step_mono _ _ _ (G1_reach _ _ _ _ _ Hr) H)) as [E1 E2]. split; congruence.
+  Qed.
+
+  (* ---- the timer protocol never blocks the batcher ---- *)
+  Lemma timer_protocol_ok s : R s -> bpc_ s <> BStuck.
+  Proof. intros Hr. exact (g_stuck _ (G1_reach _ _ _ _ _ Hr)). Qed.
+End Clauses.
+
+(* ------------------------------------------------------------------ *)
+(* a consumer call whose context expires                               *)
+(* ------------------------------------------------------------------ *)
+(* the labels of consumer call k other than receiving a batch *)
+Definition consumer_label (k : nat) (l : lab) : bool :=
+  match l with
+  | LCallNext j | TRecvWaiting j | TConsClosed j | TConsCtx j | LRetNext j _ => Nat.eqb j k
+  | _ => false
+  end.
+
+Definition same_data (s s' : st) : Prop :=
+  batch s' = batch s /\ delivered s' = delivered s /\ src s' = src s /\ lostb s' = lostb s /\
+  lostp s' = lostp s /\ srcq s' = srcq s /\ ppc_ s' = ppc_ s.
+
+Lemma consumer_frame s l s' k :
+  G1 s -> step s l = Some s' -> consumer_label k l = true -> same_data s s'.
+Proof.
+  intros HG1 H Hl. pose proof (g_tc _ HG1) as Htc.
+  step_cases H Htc.
+  all: simpl in *; try discriminate.
+  all: unfold same_data; simpl; repeat split; reflexivity.
+Qed.
+
+Lemma ctx_result_took_nothing mw m calls nctx s k :
+  Reach mw m calls nctx s -> result_of s k = Some CCtx -> forall d, In d (delivered s) -> d_who d <> k.
+Proof.
+  intros Hr Hk d Hin E. pose proof (delivered_owned _ _ _ _ s d Hr Hin) as Ho.
+  rewrite E in Ho. congruence.
+Qed.
+
+(* a batch in hand-off is taken by any consumer that is (or later arrives) in one of its selects *)
+Lemma handoff_enabled s r k x :
+  bpc_ s = BFlush r -> getc s k = Some x -> in_select (c_pc x) = true ->
+  exists s', step s (TFlushSend k) = Some s' /\ result_of s' k = Some (CBatch (batch s)).
+Proof.
+  intros Hb Hk Hs. simpl. rewrite Hb, Hk, Hs. eexists. split; [reflexivity|].
+  unfold result_of, setc. rewrite Hk. simpl.
+  rewrite nth_error_upd_same; [reflexivity|]. unfold getc in Hk. eapply nth_lt; eauto.
+Qed.
+
+(* ------------------------------------------------------------------ *)
+(* Close                                                               *)
+(* ------------------------------------------------------------------ *)
+(* steps of the producer, the batcher and Close itself (incl. the up-calls into the source and full) *)
+Definition close_label (l : lab) : bool :=
+  match l with
+  | TBgCancel | TWgWait
+  | LSrcNextEnter | LSrcNextExit _ | TProdCancel | TCloseC | LSrcClose | TProdDone
+  | TRecvItem | TRecvClosed | TFullEval | LFullEnter _ | LFullExit _ | TFlushCancel | TCloseBatchC | TBatDone => true
+  | _ => false
+  end.
+
+Lemma list_eqb_Z_refl (l : list Z) : list_eqb Z.eqb l l = true.
+Proof. induction l as [|a t IH]; simpl; [reflexivity|]. rewrite Z.eqb_refl. exact IH. Qed.
+
+Definition close_pending (s : st) : Prop := kpc_ s = KCalled \/ kpc_ s = KWait.
+
+(* the user's full, if the batcher is inside it, is able to return *)
+Definition full_returns (s : st) : Prop :=
+  bpc_ s = BInFull -> exists s', step s (LFullExit true) = Some s'.
+
+Lemma close_progress_G1 s :
+  G1 s -> close_pending s -> full_returns s ->
+  exists l s', close_label l = true /\ step s l = Some s' /\
+               (In l (lib_tau_labels s) \/ In l (lib_visible s)).
+Proof.
+  intros G [Hk|Hk] Hfull.
+  - exists TBgCancel. eexists. simpl. rewrite Hk. split; [reflexivity|]. split; [reflexivity|].
+    left. simpl. tauto.
+  - assert (Hbg : bgdone s = true) by (rewrite <- (g_k _ G), Hk; reflexivity).
+    destruct (ppc_ s) eqn:Ep.
+    + exists LSrcNextEnter. eexists. simpl. rewrite Ep. repeat split. right. simpl. tauto.
+    + exists (LSrcNextExit RCanceled). eexists. simpl. rewrite Ep, Hbg.
+      split; [reflexivity|]. split; [destruct (srcq s) as [|[] ?]; reflexivity|]. right. simpl. tauto.
+    + exists TProdCancel. eexists. simpl. rewrite Ep, Hbg. repeat split. left. simpl. tauto.
+    + exists TCloseC. eexists. simpl. rewrite Ep. repeat split. left. simpl. tauto.
+    + exists LSrcClose. eexists. simpl. rewrite Ep. repeat split. right. simpl. tauto.
+    + exists TProdDone. eexists. simpl. rewrite Ep. repeat split. left. simpl. tauto.
+    + (* the producer has finished: c is closed; the batcher moves *)
+      assert (Hcc : cclosed s = true) by (rewrite (g_cc _ G), Ep; reflexivity).
+      destruct (bpc_ s) eqn:Eb.
+      * exists TRecvClosed. simpl. rewrite Eb, Hcc.
+        destruct (batch s); eexists; (split; [reflexivity|]); (split; [reflexivity|]); left; simpl; tauto.
+      * destruct (mode s) eqn:Em.
+        -- exists TFullEval. eexists. simpl. rewrite Eb, Em. repeat split. left. simpl. tauto.
+        -- exists (LFullEnter (batch s)). eexists. simpl. rewrite Eb, Em, list_eqb_Z_refl.
+           repeat split. right. simpl. tauto.
+      * destruct (Hfull Eb) as [s' Hs']. exists (LFullExit true), s'.
+        split; [reflexivity|]. split; [exact Hs'|]. right. simpl. tauto.
+      * exists TFlushCancel. eexists. simpl. rewrite Eb, Hbg. repeat split. left. simpl. tauto.
+      * exists TCloseBatchC. eexists. simpl. rewrite Eb. repeat split. left. simpl. tauto.
+      * exists TBatDone. eexists. simpl. rewrite Eb. repeat split. left. simpl. tauto.
+      * exists TWgWait. eexists. simpl. rewrite Hk.
+        assert (Hw : wg s = O) by (rewrite (g_wg _ G), Ep, Eb; reflexivity).
+        rewrite Hw. repeat split. left. simpl. tauto.
+      * exfalso. exact (g_stuck _ G Eb).
+Qed.
+
+Lemma close_never_quiescent_G1 s :
+  G1 s -> close_pending s -> full_returns s -> quiescent s = false.
+Proof.
+  intros G Hp Hf. destruct (close_progress_G1 s G Hp Hf) as (l & s' & _ & Hs & [Hin|Hin]).
+  - unfold quiescent.
+    assert (E : existsb (enabled s) (lib_tau_labels s) = true).
+    { apply existsb_exists. exists l. split; [exact Hin|]. unfold enabled. rewrite Hs. reflexivity. }
+    rewrite E. reflexivity.
+  - unfold quiescent.
+    assert (E : existsb (enabled s) (lib_visible s) = true).
+    { apply existsb_exists. exists l. split; [exact Hin|]. unfold enabled. rewrite Hs. reflexivity. }
+    rewrite E. rewrite andb_false_r. reflexivity.
+Qed.
+
+Lemma close_returned_G1 s :
+  G1 s -> k_ret (kpc_ s) = true ->
+  wg s = O /\ ppc_ s = PDone /\ bpc_ s = BDone /\ nclose s = 1%nat /\ cclosed s = true /\ bclosed s = true.
+Proof.
+  intros G Hk. pose proof (g_kret _ G Hk) as Hw. rewrite (g_wg _ G) in Hw.
+  assert (Ep : ppc_ s = PDone) by (destruct (ppc_ s); simpl in Hw; try lia; reflexivity).
+  assert (Eb : bpc_ s = BDone) by (destruct (bpc_ s); simpl in Hw; try lia; reflexivity).
+  rewrite (g_wg _ G), (g_nc _ G), (g_cc _ G), (g_bc _ G), Ep, Eb. simpl. auto.
+Qed.
+
+Lemma source_closed_at_most_once_G1 s : G1 s -> (nclose s <= 1)%nat.
+Proof. intros G. rewrite (g_nc _ G). destruct (ppc_ s); simpl; lia. Qed.
